@@ -29,6 +29,7 @@ def scenarios(tier, seed):
 
 def run(tier, seed):
     rep = Report("C07", tier, seed)
+    rep.add_proof("ColdRecordsInWindow")
     rep.add_mc("MC_OutFile", tlc.model_check("MC_OutFile", "MC_OutFile.cfg" if tier == "thorough" else "MC_OutFile_quick.cfg", must_take=["Step", "Finish"]))
     scs = scenarios(tier, seed)
     traces = pmap("harness.e2e", "run_e2e", scs)
